@@ -555,7 +555,7 @@ func main() {
 		Technique: "bounded-exhaustive enumeration: rule x message x carrier plumbing sweep and all clause-kind sequences up to length 5 realised by real validation calls, vs extractor model",
 		Rule: "(1) 47 (rule, violating value) cases x 10 messages (none, ASCII, CJK, mixed, 1-byte, with '=', quoted commas) x carriers {struct tag, struct per-call, Var, map, []map, URL}: one clause, label by CJK content, message verbatim, " +
 			"default wording table, echoed input, path; (2) every sequence over {Chinese-labelled, English-labelled, default-worded, unlabelled}^k followed by 0..2 group clauses, k+g<=5, built as a synthesised struct and validated; " +
-			"GetOnlyExplainErr(err) = explanation parts of the labelled clauses joined by '; '; non-trivial = custom message / sequences mixing >=2 label kinds",
+			"GetOnlyExplainErr(err) = explanation parts of the labelled clauses joined by '; ', and what it returned still reads the same after later extractor calls; non-trivial = custom message / sequences mixing >=2 label kinds",
 		Assumptions: []string{"messages and values contain neither '; ' nor the label words", "clause parser internal/errparse"},
 		Run:         run,
 	})
